@@ -4,6 +4,8 @@
 #include "sdk/sdk.h"
 #include "sdk/fwglue.h"
 #include "ops.h"
+#include <unistd.h>
+#include <fcntl.h>
 
 /* observe srpc_getdata's verdict: the dispatcher in devconn.c calls this wrapper */
 #include <srpc.h>
@@ -223,9 +225,19 @@ static void dcstate(void) {
   sdk_out("DCSTATE started=%d srpc=%d registered=%d sendbuf=%d recvbuf=%d conn=%d", devconn->started, devconn->srpc != NULL,
           devconn->registered, (int)devconn->esp_send_buffer_len, (int)devconn->recvbuff_size, sdk_conn_open);
 }
+static int verif_rebooted = 0; /* this process continues a case after a `reboot` op: flash content was kept */
 static void device_init(int registered) {
   memset(&supla_esp_cfg, 0, sizeof(supla_esp_cfg));
   memset(&supla_esp_state, 0, sizeof(supla_esp_state));
+  if (verif_rebooted) {
+    /* as supla_esp_cfg_init(): the state record saved by _supla_esp_save_state in the previous life */
+    spi_flash_read((CFG_SECTOR + STATE_SECTOR_OFFSET) * SPI_FLASH_SEC_SIZE, (uint32 *)&supla_esp_state, sizeof(SuplaEspState));
+    fprintf(stdout, "BOOTSTATE relay=");
+    for (int i = 0; i < RELAY_MAX_COUNT; i++) fprintf(stdout, "%d%s", supla_esp_state.Relay[i], i + 1 < RELAY_MAX_COUNT ? "," : "");
+    fprintf(stdout, " time2left=");
+    for (int i = 0; i < STATE_CFG_TIME2_COUNT; i++) fprintf(stdout, "%u%s", (unsigned)supla_esp_state.Time2Left[i], i + 1 < STATE_CFG_TIME2_COUNT ? "," : "");
+    fputc('\n', stdout);
+  }
   memcpy(supla_esp_cfg.TAG, "SUPLA", 6);
   for (int i = 0; i < SUPLA_GUID_SIZE; i++) supla_esp_cfg.GUID[i] = 0x10 + i;
   for (int i = 0; i < SUPLA_AUTHKEY_SIZE; i++) supla_esp_cfg.AuthKey[i] = 0x40 + i;
@@ -253,9 +265,17 @@ static void device_init(int registered) {
   }
 }
 
-int main(void) {
+int main(int argc, char **argv) {
   static unsigned char buf[70000];
   static unsigned char frame[70000];
+  (void)argc;
+  if (getenv("VERIF_FLASH_IMG")) { /* second life of a case: see the `reboot` op */
+    FILE *f = fopen(getenv("VERIF_FLASH_IMG"), "rb");
+    if (f) { if (fread(sdk_flash, 1, sizeof(sdk_flash), f) != sizeof(sdk_flash)) memset(sdk_flash, 0xff, sizeof(sdk_flash)); fclose(f); }
+    unlink(getenv("VERIF_FLASH_IMG"));
+    unsetenv("VERIF_FLASH_IMG");
+    verif_rebooted = 1;
+  }
   sdk_log_echo = 1;
   sdk_restart_armed = 1;
   sdk_sent_hook = sent_hook;
@@ -266,7 +286,32 @@ int main(void) {
     if (setjmp(sdk_restart_jmp) == 0) {
       const char *op = ops_tok[0];
       if (inited && (!strcmp(op, "msg") || !strcmp(op, "input"))) sdk_out("NOW %llu", (unsigned long long)sdk_now_us);
-      if (!strcmp(op, "boot") && ops_ntok == 2) {
+      if (!strcmp(op, "reboot")) {
+        /* power cycle: RAM is lost (a fresh process image), the flash content stays. `reboot save` lets the 1 s
+           delayed state save run first only if it is due; nothing is saved here on purpose. */
+        const char *tmp = getenv("TMPDIR") ? getenv("TMPDIR") : "/tmp";
+        char fpath[512], opath[512];
+        snprintf(fpath, sizeof(fpath), "%s/verif-flash-XXXXXX", tmp);
+        snprintf(opath, sizeof(opath), "%s/verif-ops-XXXXXX", tmp);
+        int ffd = mkstemp(fpath), ofd = mkstemp(opath);
+        if (ffd < 0 || ofd < 0) { sdk_out("BADOP"); }
+        else {
+          if (write(ffd, sdk_flash, sizeof(sdk_flash)) != (ssize_t)sizeof(sdk_flash)) sdk_out("BADOP");
+          close(ffd);
+          size_t n;
+          while ((n = fread(buf, 1, sizeof(buf), stdin)) > 0) if (write(ofd, buf, n) != (ssize_t)n) break;
+          lseek(ofd, 0, SEEK_SET);
+          dup2(ofd, 0);
+          close(ofd);
+          unlink(opath);
+          setenv("VERIF_FLASH_IMG", fpath, 1);
+          sdk_out("REBOOT");
+          ops_done();
+          execv("/proc/self/exe", argv);
+          perror("execv");
+          exit(3);
+        }
+      } else if (!strcmp(op, "boot") && ops_ntok == 2) {
         sdk_boot_cnt = (uint32_t)strtoul(ops_tok[1], 0, 10);
       } else if (!strcmp(op, "board") && ops_ntok >= 2) {
         if (board_preset(ops_tok[1], ops_ntok > 2 ? atoi(ops_tok[2]) : 0)) sdk_out("BADOP");
